@@ -832,6 +832,10 @@ def setup():
     r = sfv.run_tlc("FxTest", "FxTest.cfg", {"FVEC": os.path.join(wd, "fvec.ndjson")}, wd, workers=1, timeout=600)
     if "FxTest" not in r["out"]:
         raise sfv.ToolError("FxTest did not run")
+    sfv.sh([sys.executable, os.path.join(sfv.VERIF, "lib", "gen_ieee_vectors.py"), os.path.join(wd, "ivec.ndjson")])
+    r = sfv.run_tlc("IEEETest", "IEEETest.cfg", {"IVEC": os.path.join(wd, "ivec.ndjson")}, wd, workers=1, timeout=600)
+    if "IEEETest" not in r["out"]:
+        raise sfv.ToolError("IEEETest did not run")
     log("setup ok")
     return 0
 
